@@ -91,3 +91,62 @@ structure TableIdx (z : Zone) : Prop where
 def MemSafe (f : Flags) : Prop := f.oob = false ∧ f.unset = false ∧ f.fuel = false
 
 end Cctz.Spec
+
+namespace Cctz.Spec
+open Cctz Cctz.Tz
+
+/-! ### the table read as a piecewise-constant offset function -/
+
+def timeOf (z : Zone) (i : Nat) : Int := (trn z i).unixTime
+/-- offset in force from table entry `i` on -/
+def offOf (z : Zone) (i : Nat) : Int := (typ z (trn z i).typeIndex).utcOffset
+/-- offset in force just before table entry `i` -/
+def offBefore (z : Zone) (i : Nat) : Int := (typ z (prevType z i)).utcOffset
+
+/-- number of table entries at or before instant `t` -/
+def segIndex (z : Zone) (t : Int) : Nat :=
+  ((List.range z.transitions.size).filter fun i => decide (timeOf z i ≤ t)).length
+
+/-- index of the type in force at `t` according to the table alone (no 400-year extension):
+the default type before the first entry, else the type of the latest entry at or before `t` -/
+def typeAt (z : Zone) (t : Int) : Nat :=
+  if segIndex z t = 0 then z.defaultType else (trn z (segIndex z t - 1)).typeIndex
+
+def offAt (z : Zone) (t : Int) : Int := (typ z (typeAt z t)).utcOffset
+
+/-- instant `t` displays the civil second numbered `x` -/
+def shows (z : Zone) (t x : Int) : Prop := t + offAt z t = x
+
+/-- the civil-second columns are what they are documented to be: `civil_sec` is the local civil
+second at the transition, `prev_civil_sec` the one shown one second earlier, `civil_max/min` the
+civil seconds at the ends of the time_point range for each type -/
+structure CivilCols (z : Zone) : Prop where
+  civ : ∀ i, i < z.transitions.size →
+    Valid (trn z i).civilSec ∧ secNum (trn z i).civilSec = timeOf z i + offOf z i
+  prev : ∀ i, i < z.transitions.size →
+    Valid (trn z i).prevCivilSec ∧ secNum (trn z i).prevCivilSec = timeOf z i + offBefore z i - 1
+  tmax : ∀ k, k < z.types.size → Valid (typ z k).civilMax ∧ secNum (typ z k).civilMax = i64max + (typ z k).utcOffset
+  tmin : ∀ k, k < z.types.size → Valid (typ z k).civilMin ∧ secNum (typ z k).civilMin = i64min + (typ z k).utcOffset
+
+/-- offset changes are farther apart than they are large: with `c i` the civil second shown at
+change `i` and `p i` the one shown just before it, `c i < c (i+1)`, `p i ≤ p (i+1)`, `p i < c (i+1)`.
+(All real data satisfies this; Load checks only the first.) -/
+def Separated (z : Zone) : Prop :=
+  ∀ i, i + 1 < z.transitions.size →
+    timeOf z i + offOf z i < timeOf z (i + 1) + offOf z (i + 1) ∧
+    timeOf z i + offBefore z i ≤ timeOf z (i + 1) + offBefore z (i + 1) ∧
+    timeOf z i + offBefore z i - 1 < timeOf z (i + 1) + offOf z (i + 1)
+
+/-- the property's own wording: consecutive changes farther apart than the sum of their sizes -/
+def FarApart (z : Zone) : Prop :=
+  ∀ i, i + 1 < z.transitions.size →
+    (offOf z i - offBefore z i).natAbs + (offOf z (i + 1) - offBefore z (i + 1)).natAbs
+      < timeOf z (i + 1) - timeOf z i
+
+/-- the civil second does not take the 400-year shift path of MakeTime -/
+def NoShift (z : Zone) (cs : Fields) : Prop :=
+  z.extended = false ∨ ∃ ly, z.lastYear = some ly ∧ cs.y ≤ ly
+
+def clamp64 (x : Int) : Int := if x < i64min then i64min else if x > i64max then i64max else x
+
+end Cctz.Spec
